@@ -159,6 +159,11 @@ func runC14(c *ev.Case, ctx *lib.Ctx, order string, waits bool, lc *logCapture) 
 				delivered += c14MsgLen - r
 			}
 			mc.Feed(badMessage(e == tBADT))
+			if e == tBADT {
+				// more data already in flight behind the undecodable message
+				mc.Feed(seqMsg(98, 100))
+				mc.Feed(seqMsg(97, 4096))
+			}
 		case tLC:
 			conn.Close()
 		}
@@ -303,6 +308,8 @@ func runC14Client(c *ev.Case, ctx *lib.Ctx, term byte, exchanges int, lc *logCap
 		mc.Feed(badMessage(false))
 	case tBADT:
 		mc.Feed(badMessage(true))
+		mc.Feed(seqMsg(98, 100))
+		mc.Feed(seqMsg(97, 4096))
 	case tLC:
 		conn.Close()
 	}
